@@ -1,0 +1,35 @@
+//go:build verif
+
+package v1alpha1
+
+// ASSUMED behaviour of the API server as seen through the generated FloatingIP client, stated over
+// the ghost Store of pkg/ipam/floatingip (object name = IP string). Every call either fails
+// cleanly (an error, nothing changed, one unit of the fault budget consumed) or takes effect.
+// These are the trusted boundary of the IPAM proofs; the wrappers in store_crd.go are verified
+// against them.
+
+//@ func (GalaxyV1alpha1Interface).FloatingIPs trusted noeffect
+//@   ensures result != nil
+
+//@ func (FloatingIPInterface).Create trusted
+//@   requires [C18] floatingIP != nil
+//@   modifies StoreDom, StoreKey, StorePolicy, StoreNode, StoreUid, faults
+//@   ensures result1 != nil ==> storeUnchanged() && old(faults) > 0 && faults == old(faults) - 1 && fresh(result1)
+//@   ensures old(StoreDom)[floatingIP.Name] ==> result1 != nil
+//@   ensures result1 == nil ==> faults == old(faults) && StoreDom == old(StoreDom)[floatingIP.Name := true] && StoreKey == old(StoreKey)[floatingIP.Name := floatingIP.Spec.Key] && StorePolicy == old(StorePolicy)[floatingIP.Name := floatingIP.Spec.Policy] && StoreNode == old(StoreNode)[floatingIP.Name := attrNode(floatingIP.Spec.Attribute)] && StoreUid == old(StoreUid)[floatingIP.Name := attrUid(floatingIP.Spec.Attribute)]
+
+//@ func (FloatingIPInterface).Update trusted
+//@   requires [C18] floatingIP != nil
+//@   modifies StoreKey, StorePolicy, StoreNode, StoreUid, faults
+//@   ensures result1 != nil ==> storeUnchanged() && old(faults) > 0 && faults == old(faults) - 1
+//@   ensures result1 == nil ==> old(StoreDom)[floatingIP.Name] && faults == old(faults) && StoreKey == old(StoreKey)[floatingIP.Name := floatingIP.Spec.Key] && StorePolicy == old(StorePolicy)[floatingIP.Name := floatingIP.Spec.Policy] && StoreNode == old(StoreNode)[floatingIP.Name := attrNode(floatingIP.Spec.Attribute)] && StoreUid == old(StoreUid)[floatingIP.Name := attrUid(floatingIP.Spec.Attribute)]
+
+//@ func (FloatingIPInterface).Get trusted
+//@   modifies faults, fresh v1alpha1.FloatingIP.*
+//@   ensures result1 != nil ==> old(faults) > 0 && faults == old(faults) - 1
+//@   ensures result1 == nil ==> faults == old(faults) && result0 != nil && fresh(result0) && StoreDom[name] && result0.Name == name
+
+//@ func (FloatingIPInterface).Delete trusted
+//@   modifies StoreDom, faults
+//@   ensures result != nil ==> StoreDom == old(StoreDom) && old(faults) > 0 && faults == old(faults) - 1
+//@   ensures result == nil ==> StoreDom == old(StoreDom)[name := false] && faults == old(faults)
